@@ -20,6 +20,8 @@ type Server struct {
 	mu    sync.Mutex
 	colls map[string][]bson.M
 	Ops   map[string]int
+	// injected faults (FailNextFind, FailNextUpdateApplied)
+	failFind, failUpdateApplied int
 }
 
 func Start() (*Server, error) {
@@ -232,6 +234,11 @@ func (s *Server) handle(cmd bson.D) bson.D {
 			{Key: "readOnly", Value: false}, {Key: "ok", Value: 1.0},
 		}
 	case "find":
+		if s.failFind > 0 {
+			// injected fault: the command fails (a code the driver does not retry)
+			s.failFind--
+			return bson.D{{Key: "ok", Value: 0.0}, {Key: "errmsg", Value: "injected: not authorized on the collection to execute command"}, {Key: "code", Value: int32(13)}, {Key: "codeName", Value: "Unauthorized"}}
+		}
 		coll, _ := cmd[0].Value.(string)
 		ns := db + "." + coll
 		f := toD(get(cmd, "filter"))
@@ -280,11 +287,31 @@ func (s *Server) handle(cmd bson.D) bson.D {
 				}
 			}
 		}
+		if s.failUpdateApplied > 0 {
+			// injected fault: the write is applied, but the server reports that it could not be acknowledged
+			s.failUpdateApplied--
+			return bson.D{{Key: "n", Value: int32(n)}, {Key: "nModified", Value: int32(n)}, {Key: "ok", Value: 1.0},
+				{Key: "writeConcernError", Value: bson.D{{Key: "code", Value: int32(64)}, {Key: "codeName", Value: "WriteConcernFailed"}, {Key: "errmsg", Value: "injected: waiting for replication timed out"}}}}
+		}
 		return bson.D{{Key: "n", Value: int32(n)}, {Key: "nModified", Value: int32(n)}, {Key: "ok", Value: 1.0}}
 	case "ping", "endSessions", "killCursors":
 		return bson.D{{Key: "ok", Value: 1.0}}
 	}
 	return bson.D{{Key: "ok", Value: 0.0}, {Key: "errmsg", Value: "no such command: " + name}, {Key: "code", Value: int32(59)}}
+}
+
+// FailNextFind makes the next n find commands fail with a command error.
+func (s *Server) FailNextFind(n int) {
+	s.mu.Lock()
+	s.failFind = n
+	s.mu.Unlock()
+}
+
+// FailNextUpdateApplied makes the next n update commands be applied and answered with a write-concern error.
+func (s *Server) FailNextUpdateApplied(n int) {
+	s.mu.Lock()
+	s.failUpdateApplied = n
+	s.mu.Unlock()
 }
 
 // Put directly stores a document (test setup).
